@@ -6,10 +6,13 @@ package mcp
 // enumeration is C09's (same scripted server); only the completion oracle is evaluated here.
 
 import (
+	"context"
+	"errors"
 	"fmt"
 	"strings"
 	"testing"
 	"testing/synctest"
+	"time"
 
 	"github.com/modelcontextprotocol/go-sdk/internal/verifx"
 )
@@ -51,4 +54,113 @@ func TestVerifC01HTTP(t *testing.T) {
 		mk("http/post-stream/ids/no-retries", c09Opts{ids: true, maxRetries: -1}),
 		mk("http/post-stream/ids/retries=1", c09Opts{ids: true, maxRetries: 1}),
 	})
+}
+
+// ---- calls started after the session has terminated fail at once with an error that says so,
+// and leave nothing running: every ClientSession / ServerSession API method, on sessions of both
+// protocol generations, after Close (own side) and after the peer closed.
+
+func c01AfterClose(version, how, op string) (obs, sig, msg string) {
+	fail := func(s, format string, a ...any) (string, string, string) {
+		return "", "c01 after-close " + s, fmt.Sprintf(format, a...) + fmt.Sprintf(" [version=%s closed-by=%s op=%s]", version, how, op)
+	}
+	ctx := context.Background()
+	s := NewServer(&Implementation{Name: "srv", Version: "1"}, &ServerOptions{Logger: quietLogger,
+		SubscribeHandler:   func(context.Context, *SubscribeRequest) error { return nil },
+		UnsubscribeHandler: func(context.Context, *UnsubscribeRequest) error { return nil },
+	})
+	AddTool(s, &Tool{Name: "t"}, func(ctx context.Context, r *CallToolRequest, in map[string]any) (*CallToolResult, any, error) {
+		return &CallToolResult{}, nil, nil
+	})
+	s.AddResource(&Resource{URI: "file:///r", Name: "r"}, func(context.Context, *ReadResourceRequest) (*ReadResourceResult, error) {
+		return &ReadResourceResult{}, nil
+	})
+	ct, st := NewInMemoryTransports()
+	ss, err := s.Connect(ctx, st, nil)
+	if err != nil {
+		return fail("setup", "%v", err)
+	}
+	cl := NewClient(&Implementation{Name: "cli", Version: "1"}, &ClientOptions{Logger: quietLogger})
+	cs, err := cl.Connect(ctx, ct, &ClientSessionOptions{ProtocolVersion: version})
+	if err != nil {
+		return fail("setup", "%v", err)
+	}
+	synctest.Wait()
+	if how == "client" {
+		cs.Close()
+	} else {
+		ss.Close()
+	}
+	cs.Wait()
+	ss.Wait()
+	synctest.Wait()
+	t0 := time.Now()
+	var opErr error
+	switch op {
+	case "ListTools":
+		_, opErr = cs.ListTools(ctx, nil)
+	case "CallTool":
+		_, opErr = cs.CallTool(ctx, &CallToolParams{Name: "t", Arguments: map[string]any{}})
+	case "ReadResource":
+		_, opErr = cs.ReadResource(ctx, &ReadResourceParams{URI: "file:///r"})
+	case "Subscribe":
+		opErr = cs.Subscribe(ctx, &SubscribeParams{URI: "file:///r"})
+	case "Ping":
+		opErr = cs.Ping(ctx, nil)
+	case "NotifyProgress":
+		opErr = cs.NotifyProgress(ctx, &ProgressNotificationParams{ProgressToken: "x", Progress: 1})
+	case "server:Ping":
+		opErr = ss.Ping(ctx, nil)
+	case "server:ListRoots":
+		_, opErr = ss.ListRoots(ctx, nil)
+	case "server:NotifyProgress":
+		opErr = ss.NotifyProgress(ctx, &ProgressNotificationParams{ProgressToken: "x", Progress: 1})
+	}
+	synctest.Wait()
+	if d := time.Since(t0); d != 0 {
+		return fail("call-after-close-not-immediate "+op, "the operation took %v of virtual time on a terminated session", d)
+	}
+	if opErr == nil {
+		return fail("call-after-close-succeeds "+op, "the session has terminated (Wait returned on both sides) but %s returned nil", op)
+	}
+	if version >= "2026-07-28" && op == "server:ListRoots" {
+		return "refused: the negotiated protocol has no such request", "", "" // any error will do
+	}
+	if !errors.Is(opErr, ErrConnectionClosed) && !strings.Contains(opErr.Error(), "clos") {
+		return fail("call-after-close-wrong-error "+op, "%s on a terminated session failed with %q, which does not identify the connection as closed", op, opErr)
+	}
+	cs.Close()
+	ss.Close()
+	return "fails at once with a closed-connection error", "", ""
+}
+
+func TestVerifC01AfterClose(t *testing.T) {
+	env := verifx.LoadEnv("C01")
+	res := env.NewResult()
+	cases := env.NewCases(res, "api/calls-after-termination")
+	for _, version := range []string{"2025-06-18", "2026-07-28"} {
+		for _, how := range []string{"client", "server"} {
+			for _, op := range []string{"ListTools", "CallTool", "ReadResource", "Subscribe", "Ping", "NotifyProgress", "server:Ping", "server:ListRoots", "server:NotifyProgress"} {
+				idx, mine := cases.Next()
+				if !mine {
+					continue
+				}
+				var obs, sig, msg string
+				func() {
+					defer func() {
+						if r := recover(); r != nil {
+							sig, msg = "c01 after-close goroutine-left-behind "+op, fmt.Sprintf("%v [version=%s closed-by=%s op=%s]", r, version, how, op)
+						}
+					}()
+					synctest.Test(t, func(t *testing.T) { obs, sig, msg = c01AfterClose(version, how, op) })
+				}()
+				if sig != "" {
+					cases.Violate(idx, sig, msg, 2)
+					continue
+				}
+				cases.Record(idx, obs, 2, func() string { return fmt.Sprintf("version=%s closed-by=%s op=%s", version, how, op) })
+			}
+		}
+	}
+	env.Finish(res)
 }
